@@ -118,6 +118,8 @@ def check_wrapper(pm: Any, ctx: Any, rule: str, cls_name: str, func_qual_name: s
                   f"{'the value for the model executed before' if got == want1 else str(got)[:100]}")
     ctx.check(ret is op, rule, f"wrap-return:{cls_name}", loc(ex.unit.path, ex.node),
               "execute returns the operation object", bad="execute does not return self")
+    from .props.c19 import op_sequences                  # sequences of calls on one operation object, for this class
+    op_sequences(pm, ctx, mb, [ci], rule.split("-")[0])
 
 
 def extra_loop_state(pre: list[ast.stmt], loop: ast.While, known: set[str]) -> list[str]:
